@@ -29,7 +29,7 @@ def plan(tier):
 def cand_iso_file(rng, level):
     """Returns (identifier, expected_legal: True/False/None(unspecified), rule)."""
     x = rng.random()
-    base = ''.join(rng.choice(D1) for _ in range(rng.choice([1, 7, 8, 9, 12, 30])))
+    base = ''.join(rng.choice(D1) for _ in range(rng.choice([1, 7, 8, 9, 12, 30] + ([190] + list(range(200, 224)) if level == 4 or rng.random() < 0.1 else []))))
     ext = ''.join(rng.choice(D1) for _ in range(rng.choice([0, 1, 3, 4])))
     ver = rng.choice(['1', '1', '2', '32767', '32768', '0', '-1', '65536', 'x', '1x', ' 1', '+1', '', '1;1', '٣'])
     if x < 0.2:
@@ -40,7 +40,7 @@ def cand_iso_file(rng, level):
     return ident
 
 
-def legal_iso_file(ident, level):
+def legal_iso_file(ident, level, xa=False):
     """True / False(rule) per the statement's rule list; None when the statement does not decide."""
     body, sep, ver = ident.rpartition(';')
     if not sep:
@@ -61,12 +61,12 @@ def legal_iso_file(ident, level):
         if level == 1 and (len(name) > 8 or len(ext) > 3):
             return 'length-8.3'
     n = len(ident.encode('utf-8'))
-    if 33 + n + (1 - n % 2) > 254:
+    if 33 + n + (1 - n % 2) + (14 if xa else 0) > 254:
         return 'record-fit'
     return True
 
 
-def legal_iso_dir(ident, level):
+def legal_iso_dir(ident, level, xa=False):
     if not ident:
         return 'empty'
     if level < 4:
@@ -77,7 +77,7 @@ def legal_iso_dir(ident, level):
         if level in (2, 3) and len(ident) > 207:
             return 'length-207'
     n = len(ident.encode('utf-8'))
-    if 33 + n + (1 - n % 2) > 254:
+    if 33 + n + (1 - n % 2) + (14 if xa else 0) > 254:
         return 'record-fit'
     return True
 
@@ -104,15 +104,31 @@ def check_candidates(rng, counters, classes, n=40):
     vio = []
     for _ in range(n):
         level = rng.choice([1, 2, 3, 4])
-        kind = rng.choice(['iso-file', 'iso-file', 'iso-dir', 'joliet', 'udf', 'rr', 'depth', 'link', 'symlink'])
-        cfg = Cfg(level=level)
+        kind = rng.choice(['iso-file', 'iso-file', 'iso-dir', 'joliet', 'udf', 'rr', 'depth', 'link', 'symlink', 'versions'])
+        xa = rng.random() < 0.35
+        cfg = Cfg(level=level, xa=xa)
         if kind == 'iso-file':
             ident = cand_iso_file(rng, level)
-            exp = legal_iso_file(ident, level)
+            exp = legal_iso_file(ident, level, xa)
             op = {'op': 'add_fp', 'cid': 1, 'length': 3, 'iso_path': '/' + ident}
+        elif kind == 'versions':
+            # several versions of one name, in any order, then one of them again
+            stem = '/' + ''.join(rng.choice(D1) for _ in range(rng.choice([1, 5, 8]))) + rng.choice(['.', '.A', '.TXT'])
+            vers = rng.sample([1, 2, 3, 7, 32767], rng.choice([2, 3]))
+            pre = [{'op': 'add_fp', 'cid': 10 + k, 'length': 3, 'iso_path': '%s;%d' % (stem, v)} for k, v in enumerate(vers)]
+            again = rng.choice(vers)
+            ident = '%s;%d' % (stem, again)
+            how = rng.choice(['add_fp', 'add_directory', 'add_hard_link'])
+            if how == 'add_fp':
+                op = {'op': 'add_fp', 'cid': 1, 'length': 3, 'iso_path': ident, '_pre': pre}
+            elif how == 'add_directory':
+                op = {'op': 'add_directory', 'iso_path': ident, '_pre': pre}
+            else:
+                op = {'op': 'add_hard_link', 'old': ('iso', pre[0]['iso_path']), 'new': ('iso', ident), '_pre': pre}
+            exp = 'duplicate'
         elif kind == 'link':
             ident = cand_iso_file(rng, level)
-            exp = legal_iso_file(ident, level)
+            exp = legal_iso_file(ident, level, xa)
             op = {'op': 'add_hard_link', 'old': ('iso', '/OLD.;1' if level < 4 else '/old'), 'new': ('iso', '/' + ident),
                   '_pre': [{'op': 'add_fp', 'cid': 1, 'length': 3, 'iso_path': '/OLD.;1' if level < 4 else '/old'}]}
         elif kind == 'iso-dir':
@@ -120,7 +136,7 @@ def check_candidates(rng, counters, classes, n=40):
             ident = ''.join(rng.choice(D1) for _ in range(n_))
             if rng.random() < 0.2:
                 ident = ident[:-1] + rng.choice('a.; é')
-            exp = legal_iso_dir(ident, level)
+            exp = legal_iso_dir(ident, level, xa)
             op = {'op': 'add_directory', 'iso_path': '/' + ident}
         elif kind == 'joliet':
             cfg = Cfg(level=level, joliet=rng.choice([1, 2, 3]))
@@ -138,9 +154,14 @@ def check_candidates(rng, counters, classes, n=40):
         elif kind == 'udf':
             cfg = Cfg(level=level, udf=True)
             n_ = rng.choice([1, 100, 126, 127, 128, 200, 253, 254, 255, 256, 300])
-            ch = rng.choice(['a', 'é', '日'])
-            ident = ch * n_
-            enc = len(ident.encode('latin-1')) if ch != '日' else len(ident.encode('utf-16-be'))
+            ch = rng.choice(['a', 'é', '日', 'mix', 'mix'])
+            if ch == 'mix':
+                # mostly 8-bit characters and one that forces the 16-bit form of the whole name
+                k_ = rng.randrange(n_)
+                ident = 'a' * k_ + rng.choice('€日ő') + rng.choice('aé') * (n_ - k_ - 1)
+            else:
+                ident = ch * n_
+            enc = len(ident.encode('latin-1')) if ch in ('a', 'é') else len(ident.encode('utf-16-be'))
             exp = True if enc + 1 <= 255 else 'udf-255'
             op = {'op': rng.choice(['add_fp', 'add_directory', 'add_symlink', 'add_hard_link']), 'udf_path': '/' + ident}
             if op['op'] == 'add_fp':
@@ -193,6 +214,8 @@ def check_candidates(rng, counters, classes, n=40):
             cfg = Cfg(level=level, rr='1.09')
             ident = cand_iso_file(rng, level)
             exp = legal_iso_file(ident, level)
+            if exp is True and len(ident) > 150:
+                exp = None   # room for the Rock Ridge entries in the record is not part of the listed rules
             op = {'op': 'add_symlink', 'symlink_path': '/' + ident, 'rr_symlink_name': 's', 'rr_path': 't'}
         out, late = try_op(cfg, dict(op), counters, kind)
         cls = 'legal' if exp is True else ('unspecified' if exp is None else exp)
